@@ -397,6 +397,12 @@ STAGE_NAMES = {
 SOURCE_NAMES = ["#list", "#map", "set", "range", "repeat", "sequence"]
 
 
+# names of the two modules known not to be modelled (anything else that is registered and not modelled is NEW)
+KNOWN_UNMODELLED = {"#indexer", "#operator_*", "#operator_.", "#operator_<", "#operator_<=", "#operator_>", "#operator_>=",
+                    "#operator_in", "defaultIfEmpty", "flatten", "generate", "generateMany", "isDict", "isIterable", "isList",
+                    "isSet", "list", "zipLongest"}
+
+
 def registered_names():
     """names registered by the two modules in the standard context (introspection)"""
     names, c = {}, yaql.create_context()
@@ -681,6 +687,8 @@ def gen_stage(rng, kind, shape, n, allow_terminal=True, streaming_only=False):
     ops = ["where", "select", "skip", "take", "takeWhile", "skipWhile", "append", "distinct", "enumerate",
            "zip", "insert", "insertMany", "delete", "replace", "replaceMany", "slice", "memorize", "selectMany",
            "accumulate", "concat"]
+    if streaming_only:
+        ops += ["join", "plus"]
     if not streaming_only:
         ops += ["reverse", "orderBy", "groupBy", "join", "splitAt", "splitWhere", "sliceWhere", "toList", "plus",
                 "orderBy", "groupBy", "toSet"]
